@@ -416,6 +416,17 @@ pub fn toml_polys(polys: &[&[BigInt]], variant: u64) -> String {
     }
     format!("[{}]", items.join(", "))
 }
+/// the `to_find` list of a configuration: the command under test, for two thirds of the variants
+/// preceded by another command of the same run (`before`: commands that succeed or are refused for this
+/// kind of input but must not keep the later command from running)
+pub fn to_find_list(tested: &str, before: &[&str], variant: u64) -> String {
+    if before.is_empty() || variant % 3 == 0 {
+        format!("['{tested}']")
+    } else {
+        let b = before[(variant / 3) as usize % before.len()];
+        format!("['{b}', '{tested}']")
+    }
+}
 pub fn toml_list(v: &[BigInt]) -> String {
     format!("[{}]", v.iter().map(|x| format!("'{}'", x)).collect::<Vec<_>>().join(", "))
 }
